@@ -596,7 +596,45 @@ var ruleParams = &core.Rule{ID: "R02.2", Min: 5,
 		m := getWalk(c)
 		cm := getCharset(c)
 		f := m.walk
-		if cm.walk != f {
+		// where the parameters are computed: in the walk, or in a helper of the walk that receives the current node
+		// and the walk's unmodified header and returns the parameters
+		srcFn, curV, hdrV := f, m.shape.cur, ssa.Value(f.Params[1])
+		var psOverride ssa.Value
+		for _, ci := range core.Calls(f) {
+			call, ok := ci.(*ssa.Call)
+			if !ok || call.Call.StaticCallee() != m.chain {
+				continue
+			}
+			hc, ok := call.Call.Args[1].(*ssa.Call)
+			if !ok {
+				continue
+			}
+			h := hc.Call.StaticCallee()
+			if h == nil || !core.InMod(h) || h.Blocks == nil || h == m.chain {
+				continue
+			}
+			ci2, hi := -1, -1
+			for i, a := range hc.Call.Args {
+				if a == m.shape.cur {
+					ci2 = i
+				}
+				if a == ssa.Value(f.Params[1]) {
+					hi = i
+				}
+			}
+			var ret ssa.Value
+			same := true
+			for _, r := range core.Returns(h) {
+				if ret != nil && r.Results[0] != ret {
+					same = false
+				}
+				ret = r.Results[0]
+			}
+			if ci2 >= 0 && hi >= 0 && same && ret != nil && len(hc.Call.Args) == 2 {
+				srcFn, curV, hdrV, psOverride = h, h.Params[ci2], h.Params[hi], ret
+			}
+		}
+		if cm.walk != srcFn {
 			s.Bad("sniffer map is consulted by the walk", c.Pos(cm.walk.Pos()), "the sniffer map is consulted outside the walk function")
 		}
 		if cm.mapGlobal != nil {
@@ -618,6 +656,9 @@ var ruleParams = &core.Rule{ID: "R02.2", Min: 5,
 				continue
 			}
 			ps := call.Call.Args[1]
+			if psOverride != nil {
+				ps = psOverride
+			}
 			if core.IsString(ps.Type()) {
 				// the charset travels as a plain string ("" = none); the map with the single key charset is built
 				// where the type string is formatted (checked below with the clone)
@@ -641,11 +682,11 @@ var ruleParams = &core.Rule{ID: "R02.2", Min: 5,
 									guarded = true
 								}
 							}
-							okOne = isLoad && fld == m.tm.FMime && base == m.shape.cur && len(vcall.Call.Args) == 1 && vcall.Call.Args[0] == ssa.Value(f.Params[1]) && guarded
+							okOne = isLoad && fld == m.tm.FMime && base == curV && len(vcall.Call.Args) == 1 && vcall.Call.Args[0] == hdrV && guarded
 						}
 					}
 					if isCall && cm.direct != nil && cm.direct[vcall] != "" {
-						okOne = cm.directKeyBase(c, vcall) == m.shape.cur && len(vcall.Call.Args) == 1 && vcall.Call.Args[0] == ssa.Value(f.Params[1])
+						okOne = cm.directKeyBase(c, vcall) == curV && len(vcall.Call.Args) == 1 && vcall.Call.Args[0] == hdrV
 					}
 					if okOne {
 						n++
@@ -693,7 +734,7 @@ var ruleParams = &core.Rule{ID: "R02.2", Min: 5,
 					if isCall && vcall.Call.StaticCallee() == nil {
 						if lk := cm.lookupOf(vcall.Call.Value); lk != nil {
 							base, fld, isLoad := core.LoadOfField(lk.key)
-							if isLoad && fld == m.tm.FMime && base == m.shape.cur && len(vcall.Call.Args) == 1 && vcall.Call.Args[0] == ssa.Value(f.Params[1]) {
+							if isLoad && fld == m.tm.FMime && base == curV && len(vcall.Call.Args) == 1 && vcall.Call.Args[0] == hdrV {
 								okVal = true
 								// guarded by the found test
 								guarded, nonEmpty := false, false
@@ -729,7 +770,7 @@ var ruleParams = &core.Rule{ID: "R02.2", Min: 5,
 								continue
 							}
 							dc, isCall := v.(*ssa.Call)
-							if !isCall || cm.direct[dc] == "" || cm.directKeyBase(c, dc) != m.shape.cur || len(dc.Call.Args) != 1 || dc.Call.Args[0] != ssa.Value(f.Params[1]) {
+							if !isCall || cm.direct[dc] == "" || cm.directKeyBase(c, dc) != curV || len(dc.Call.Args) != 1 || dc.Call.Args[0] != hdrV {
 								okVal = false
 								continue
 							}
@@ -754,6 +795,11 @@ var ruleParams = &core.Rule{ID: "R02.2", Min: 5,
 					}
 					s.Check(okVal, "charset value provenance", c.Pos(x.Pos()), "sniffer[receiver type](header)", "the charset value is not the result of the sniffer selected by the receiver's own type on the walk's unmodified header")
 				case *ssa.Call, *ssa.DebugRef:
+				case *ssa.Return:
+					// the parameter helper hands its fresh map to the walk
+					if psOverride == nil || ref.Parent() != srcFn {
+						s.Bad("parameter map use", c.Pos(ref.Pos()), "the parameter map escapes or is modified in an unrecognised way")
+					}
 				case *ssa.Phi:
 					// nil-or-this-map selection handed to the chain clone
 					if ssa.Value(x) != call.Call.Args[1] {
